@@ -65,8 +65,10 @@ LEXT = {
 NAME = "(spec.strip() if (self.default_extension is None or '.' in spec.strip()) " \
        "else spec.strip() + self.default_extension)"
 CONTRACTS.append(Contract(
-    TL + ".load", params={"self": "rec[%s]" % TL, "spec": "str", "cls": "any"},
-    requires=["cls is not None",
+    # j0 is a GHOST parameter: an arbitrary but fixed index.  Everything said about j0 holds for
+    # every index (forall-introduction), which keeps the queries quantifier-free.
+    TL + ".load", params={"self": "rec[%s]" % TL, "spec": "str", "cls": "any", "j0": "int"},
+    requires=["cls is not None", "0 <= j0",
               # package-relative search paths and 'pkg:path' specs are outside this contract
               "':' not in spec", "':' not in spec.strip()",   # (the second follows from the first)
               "self.default_extension is None or ':' not in self.default_extension",
@@ -83,23 +85,50 @@ CONTRACTS.append(Contract(
         "env('isabs', 'bool', %s) or (0 <= loop_index(1) and loop_index(1) < len(self.search_path) and "
         "ext_call_arg('cls', 0, 0) == env('pjoin', 'str', self.search_path[loop_index(1)], at_loop(1, 'spec')) and "
         "env('exists', 'bool', env('pjoin', 'str', self.search_path[loop_index(1)], at_loop(1, 'spec'))))" % NAME,
-        "env('isabs', 'bool', %s) or all(not env('exists', 'bool', env('pjoin', 'str', "
-        "self.search_path[j], at_loop(1, 'spec'))) for j in range(0, loop_index(1)))" % NAME,
+        "env('isabs', 'bool', %s) or j0 >= loop_index(1) or not env('exists', 'bool', env('pjoin', 'str', "
+        "self.search_path[j0], at_loop(1, 'spec')))" % NAME,
     ],
     raises={'ValueError': {
         'when': "not env('isabs', 'bool', %s)" % NAME,
         'ensures': ["at_loop(1, 'spec') == %s" % NAME,
-                    "all(not env('exists', 'bool', env('pjoin', 'str', self.search_path[j], at_loop(1, 'spec'))) "
-                    "for j in range(0, len(self.search_path)))"]}},
+                    "j0 >= len(self.search_path) or not env('exists', 'bool', "
+                    "env('pjoin', 'str', self.search_path[j0], at_loop(1, 'spec')))"]}},
     loops={1: {
-        'inv': ["all(not env('exists', 'bool', env('pjoin', 'str', self.search_path[j], spec)) "
-                "for j in range(0, _i))",
+        'inv': ["j0 >= _i or j0 >= len(self.search_path) or "
+                "not env('exists', 'bool', env('pjoin', 'str', self.search_path[j0], spec))",
                 "spec == entry_spec", "package_name is None"],
         # PRECONDITION (stated per index to keep the queries quantifier-light): no search-path
         # entry is package-relative ('pkg:path')
         'lemmas': ["_i >= len(self.search_path) or ':' not in self.search_path[_i]"],
     }},
-    ghost={'externals': LEXT},
+    ghost={'externals': LEXT, 'harness': ('bounded.loader_harness', 'load_first'),
+           'search': {'generator': ('bounded.loader_harness', 'gen_load_cases')}},
     serves=["C16"],
     notes="os.path.exists/isabs/join are uninterpreted observations of an unchanging file system; "
           "package-relative paths are excluded by the precondition"))
+
+
+# ---------------------------------------------------------------------------------------
+# the @cache decorator of TemplateLoader.load (C16: "returns the same instance for the same name")
+# ---------------------------------------------------------------------------------------
+CL = "loader.py::CachedLoader"
+REC_FIELDS[CL] = {"registry": "map[any,any]"}
+CONTRACTS.append(Contract(
+    "loader.py::cache.load", params={"self": "rec[%s]" % CL, "args": "any", "kwargs": "any"},
+    requires=[
+        # no entry of the registry is None (load never returns None: it returns cls(...) or raises)
+        "args not in self.registry or self.registry[args] is not None",
+    ],
+    ensures=[
+        # a name that was loaded before gives the instance created then, without loading again
+        "args not in old(self.registry) or (result is old(self.registry)[args] and ext_index('func') == -1)",
+        # otherwise it is loaded exactly once and remembered under exactly these arguments
+        "args in old(self.registry) or (ext_index('func') == 0 and ext_index('func', 1) == -1 and "
+        "result is ext_call_result('func', 0) and ext_call_arg('func', 0, 1) is args)",
+        "args in self.registry and self.registry[args] is result",
+    ],
+    raises={'*': {'ensures': ["ext_raised_in('func')", "same_map(self.registry, old(self.registry))"]}},
+    result="any",
+    ghost={'externals': {'func': {'result': 'any', 'raises_any': True}}},
+    serves=["C16"],
+    notes="the wrapped function is an external event; `*args` is one opaque value (the registry key)"))
